@@ -237,6 +237,7 @@ func C18(r *core.Report) {
 		node *core.GNode // first node after which the received value is available
 		val  types.Object
 		desc string
+		open types.Object // v, open := <-ch : false when the channel was closed and nothing was received
 	}
 	var sites []recvSite
 	ast.Inspect(cf.Body, func(n ast.Node) bool {
@@ -252,23 +253,26 @@ func C18(r *core.Report) {
 				// the body entry edge
 				for _, e := range cg.Nodes {
 					if e.Kind == core.KEdge && e.Truth && e.Loop == ast.Stmt(s) {
-						sites = append(sites, recvSite{e, v, "range over the result channel"})
+						sites = append(sites, recvSite{e, v, "range over the result channel", nil})
 					}
 				}
 			}
 		case *ast.UnaryExpr:
 			if s.Op == token.ARROW && core.ObjOf(ci, s.X) == chC {
 				nd := cg.NodeOf(s.Pos())
-				var v types.Object
-				// x := <-ch
+				var v, open types.Object
+				// x := <-ch  /  x, open := <-ch
 				ast.Inspect(cf.Body, func(m ast.Node) bool {
 					if as, ok := m.(*ast.AssignStmt); ok && len(as.Rhs) == 1 && core.Unparen(as.Rhs[0]) == ast.Expr(s) {
 						v = core.ObjOf(ci, as.Lhs[0])
+						if len(as.Lhs) == 2 {
+							open = core.ObjOf(ci, as.Lhs[1])
+						}
 					}
 					return true
 				})
 				if nd != nil {
-					sites = append(sites, recvSite{nd, v, "receive at " + p.Rel(s.Pos())})
+					sites = append(sites, recvSite{nd, v, "receive at " + p.Rel(s.Pos()), open})
 				}
 			}
 		}
@@ -319,7 +323,19 @@ func C18(r *core.Report) {
 			}
 			return false
 		}
-		path := cg.PathAvoiding(st.node, stopAt, func(x *core.GNode) bool { return consume[x] })
+		// the edge on which the comma-ok flag of the receive is false: the channel was closed, nothing was received
+		nothingReceived := func(x *core.GNode) bool {
+			if st.open == nil || x.Kind != core.KEdge || x.Ast == nil {
+				return false
+			}
+			for _, fc := range x.Facts() {
+				if id, isId := core.Unparen(fc.Expr).(*ast.Ident); isId && fc.Tag == nil && ci.Uses[id] == st.open && !fc.Truth {
+					return true
+				}
+			}
+			return false
+		}
+		path := cg.PathAvoiding(st.node, stopAt, func(x *core.GNode) bool { return consume[x] || nothingReceived(x) })
 		r.Check(path == nil, "C18.R4", key, posP(r, cf.Pos()), st.desc+": every received outcome is returned as the success or appended to the error list",
 			st.desc+": a received failure can be dropped (neither returned nor appended to the error list): when no job succeeds the error list is incomplete and an index read error can be reported as not-found", cg.PathStrings(path)...)
 	}
